@@ -157,6 +157,8 @@ def run_main(argv, stdin_bytes=b'', unreadable=(), readonly=(), env_force=False,
         if isinstance(file, str):
             rp = os.path.realpath(file)
             if rp in unreadable and 'r' in mode:
+                if _events is not None:
+                    _events.append((file, mode))       # the attempt counts as a visit: the injected fault precedes the audit event
                 raise PermissionError(13, 'Permission denied', file)
             if rp in readonly and ('w' in mode or 'a' in mode or '+' in mode):
                 raise PermissionError(13, 'Permission denied', file)
@@ -184,13 +186,15 @@ def run_main(argv, stdin_bytes=b'', unreadable=(), readonly=(), env_force=False,
     res = {'exc': ''}
     try:
         try:
-            cli.main()
-            res['exit'] = 0
+            ret = cli.main()
+            res['exit'] = 0                      # `python -m python_minifier`: the module guard calls main() and drops what it returns
+            res['exit_script'] = 0 if ret is None else (ret if isinstance(ret, int) else 1)    # the pyminify console script: sys.exit(main())
         except SystemExit as e:
             c = e.code
             res['exit'] = 0 if c is None else (c if isinstance(c, int) else 1)
+            res['exit_script'] = res['exit']
         except BaseException as e:   # noqa  an uncaught exception ends a real process with status 1
-            res['exit'] = 1
+            res['exit'] = res['exit_script'] = 1
             res['exc'] = type(e).__name__
     finally:
         evs = _events
@@ -291,7 +295,7 @@ def run_config(job):
     sout = classify(so) if (so or (cfg['mode'] == 'stdout' and res['exit'] == 0 and order)) else {'what': 'none', 'file': 0, 'len': 0}
     others_changed = False
     rec = {'id': job['id'], 'shape': cfg['shape'], 'mode': cfg['mode'], 'force': bool(cfg['force']), 'files': files,
-           'exit': int(res['exit']), 'exc': res['exc'], 'outw': outw, 'sout': sout, 'order': order,
+           'exit': int(res['exit']), 'exit2': int(res['exit_script']), 'exc': res['exc'], 'outw': outw, 'sout': sout, 'order': order,
            'listed': len([l for l in res['stdout_text'].split('\n') if l])}
     shutil.rmtree(root, ignore_errors=True)
     return rec
